@@ -623,8 +623,9 @@ _7z_write_header(struct archive_write *a, struct archive_entry *entry)
 		}
 #endif
 
-		r = _7z_compression_init_encoder(a, zip->opt_compression, level);
-		if (r < 0) {
+		/* Keep r: file_new() may have warned about this entry. */
+		if (_7z_compression_init_encoder(a, zip->opt_compression,
+		    level) < 0) {
 			file_free(file);
 			return (ARCHIVE_FATAL);
 		}
